@@ -226,8 +226,9 @@ def run(ctx):
                 pp = os.path.join(d, "p", "m%d" % k)
                 os.makedirs(pp, exist_ok=True)
                 plain.append(gen.write(os.path.join(pp, os.path.basename(inner)), mdata))
-            cont = [gen.write(os.path.join(d, "c", "arch.tar"), gen.tar_bytes(members, fmt))]
-            desc = "tar %s members=%d pos=%d longname=%s" % (fmtname, nmem, pos, longname)
+            others = rng.random() < 0.4
+            cont = [gen.write(os.path.join(d, "c", "arch.tar"), gen.tar_bytes(members, fmt, other_entries=others))]
+            desc = "tar %s members=%d pos=%d longname=%s dir-and-link-entries=%s" % (fmtname, nmem, pos, longname, others)
         else:
             if codec == "xz" and rng.random() < 0.25 and shutil.which("xz") and len(data) > 20000:
                 # multi-block xz through the CLI
